@@ -62,7 +62,7 @@ Lemma teardown_rx s a x ex nf s' :
   teardown s a x ex nf = Acc s' -> exists x', actors s' a = Some x' /\ m_rx (a_mb x') = false.
 Proof.
   unfold teardown. intros H. apply frame_drop_handles in H.
-  set (x1 := set_a_crashing false (set_a_exit (Some ex) (set_a_notif nf (set_a_phase PhDone (abort_timers (rx_drop x)))))) in *.
+  set (x1 := set_a_exit (Some ex) (set_a_notif nf (set_a_phase PhDone (abort_timers (rx_drop x))))) in *.
   assert (H1 : actors (cancel_all (put_actor s a x1) (a_queue x)) a = Some x1 \/ True) by (right; exact I).
   destruct (frame_cancel_all (a_queue x) (put_actor s a x1)) as (A & _).
   destruct (A a x1) as (x2 & Hx2 & E2); [rewrite actors_put_actor, upd_same; reflexivity|].
